@@ -320,6 +320,64 @@ func VxC14_LinearEdges() {
 	}
 }
 
+// VxC14_LinearBinToValue: BinToValue is increasing and linear across fractional positions: any
+// 0 <= b1 < b2 <= nbins give BinToValue(b1) < BinToValue(b2), and BinToValue(b) is min + b*(max-min)/nbins.
+// C14: "BinToValue is increasing and interpolates within a bin, linearly for LinearHist".
+//
+//vx:mode R
+//vx:solver z3
+//vx:timeout 60000
+//vx:bound nbins in {1,2,3,10} (quick) / 1..10,25,50 (thorough); any reals min < max and 0 <= b1 < b2 <= nbins
+//vx:outside float rounding of bin/delta (exact-real reading)
+func VxC14_LinearBinToValue() {
+	var nb int
+	if vx.Tier() == 0 {
+		nb = []int{1, 2, 3, 10}[vx.Choose("nbsel", 0, 3)]
+	} else {
+		k := vx.Choose("nbsel", 0, 11)
+		if k < 10 {
+			nb = k + 1
+		} else {
+			nb = []int{25, 50}[k-10]
+		}
+	}
+	min, max, b1, b2 := vx.Float("min"), vx.Float("max"), vx.Float("b1"), vx.Float("b2")
+	vx.Assume(min < max)
+	vx.Assume(vx.And(0 <= b1, b1 < b2))
+	vx.Assume(b2 <= float64(nb))
+	h := NewLinearHist(min, max, nb)
+	v1, v2 := h.BinToValue(b1), h.BinToValue(b2)
+	vx.Assert(v1 < v2 || (!vx.Real() && v1 != v2 && vx.Close(v1, v2, 1e-9, 1e-12)), "LinearHist.BinToValue is increasing")
+	vx.Assert(vx.Close(v1, min+b1*(max-min)/float64(nb), 1e-9, 1e-12), "LinearHist.BinToValue interpolates linearly (lower point)")
+	vx.Assert(vx.Close(v2, min+b2*(max-min)/float64(nb), 1e-9, 1e-12), "LinearHist.BinToValue interpolates linearly (upper point)")
+}
+
+// VxC14_LogBinToValue: LogHist.BinToValue is increasing, hits the powers of the base at whole
+// multiples of m, and interpolates geometrically: the value at the midpoint of two positions is
+// the geometric mean of their values (math.Pow read as the real power function through its contract).
+// C14: "BinToValue is increasing and interpolates within a bin ... geometrically for LogHist".
+//
+//vx:mode R
+//vx:solver z3
+//vx:timeout 60000
+//vx:bound base in {2,10}, m in {1,2,4} bins per power, max = 1000; any reals 0 <= b1 < b2 <= 64
+//vx:outside float rounding of math.Pow; other bases and m
+//vx:assume math.Pow(base, y) for constant base > 1 is the real power: positive, 1 at 0, base at 1, strictly increasing, (base^y)^2 = base^y1*base^y2 when 2y = y1+y2
+func VxC14_LogBinToValue() {
+	base := []int{2, 10}[vx.Choose("base", 0, 1)]
+	m := []float64{1, 2, 4}[vx.Choose("m", 0, 2)]
+	h := NewLogHist(base, m, 1000)
+	b1, b2 := vx.Float("b1"), vx.Float("b2")
+	vx.Assume(vx.And(0 <= b1, b1 < b2))
+	vx.Assume(b2 <= 64)
+	v1, v2, vm := h.BinToValue(b1), h.BinToValue(b2), h.BinToValue((b1+b2)/2)
+	vx.Assert(v1 < v2 || (!vx.Real() && v1 != v2 && vx.Close(v1, v2, 1e-9, 1e-12)), "LogHist.BinToValue is increasing")
+	vx.Assert(vx.Close(vm*vm, v1*v2, 1e-9, 1e-300), "LogHist.BinToValue interpolates geometrically (midpoint is the geometric mean)")
+	vx.Assert(vx.Close(h.BinToValue(0), 1, 1e-12, 0), "LogHist.BinToValue(0) is 1")
+	vx.Assert(vx.Close(h.BinToValue(m), float64(base), 1e-12, 0), "LogHist.BinToValue(m) is the base")
+	vx.Assert(vx.Close(h.BinToValue(2*m), float64(base*base), 1e-12, 0), "LogHist.BinToValue(2m) is the base squared")
+}
+
 // VxC14_LogSpecialValues: zero, negative, NaN, infinite, tiny and huge values are counted exactly
 // once by LogHist too (concrete x through the real bin(); counters symbolic), and non-positive
 // values - which lie below every bin - go to the under-flow counter.
